@@ -271,9 +271,9 @@ Section DistProofs.
         rewrite <- !app_assoc. apply Permutation_app_head.
         rewrite !app_assoc. apply Permutation_app_tail, Permutation_app_comm.
       - destruct (nth_error (queues st) k) as [[|c q]|] eqn:Eq; try discriminate. injection H as <-.
-        unfold mass_ok; cbn [got_ok ok_chan shards queues todo fst].
+        unfold mass_ok; cbn [got_ok ok_chan shards queues todo].
         apply Permutation_app_head. rewrite flat_map_app. cbn [flat_map]. rewrite app_nil_r.
-        fold (okf c (nth k (shards st) [])). rewrite Hg.
+        pose proof (Hg c (nth k (shards st) [])) as Hg'. unfold okf, shard_distances in Hg'. cbn [fst] in Hg'. rewrite Hg'.
         rewrite <- !app_assoc. apply Permutation_app_head.
         rewrite (pend_split f (shards st) (queues st) k (c :: q) Hlen Eq).
         assert (Hq' : nth_error (set_nth k q (queues st)) k = Some q)
@@ -307,9 +307,9 @@ Section DistProofs.
         rewrite <- !app_assoc. apply Permutation_app_head.
         rewrite !app_assoc. apply Permutation_app_tail, Permutation_app_comm.
       - destruct (nth_error (queues st) k) as [[|c q]|] eqn:Eq; try discriminate. injection H as <-.
-        unfold mass_err; cbn [got_err err_chan shards queues todo snd].
+        unfold mass_err; cbn [got_err err_chan shards queues todo].
         apply Permutation_app_head. rewrite flat_map_app. cbn [flat_map]. rewrite app_nil_r.
-        fold (errf c (nth k (shards st) [])). rewrite Hg.
+        pose proof (Hg c (nth k (shards st) [])) as Hg'. unfold errf, shard_distances in Hg'. cbn [snd] in Hg'. rewrite Hg'.
         rewrite <- !app_assoc. apply Permutation_app_head.
         rewrite (pend_split f (shards st) (queues st) k (c :: q) Hlen Eq).
         assert (Hq' : nth_error (set_nth k q (queues st)) k = Some q)
@@ -323,21 +323,36 @@ Section DistProofs.
         rewrite flat_map_app. cbn [flat_map]. rewrite app_nil_r, <- !app_assoc. reflexivity.
     Qed.
 
-    Lemma run_invariants sigma : forall st st',
-      (forall c sh, gk (okf c sh) = f c sh) -> (forall c sh, ge (errf c sh) = f c sh) ->
-      wf st -> RUN st sigma = Some st' ->
-      wf st' /\ shards st' = shards st /\
-      Permutation (mass_ok st') (mass_ok st) /\ Permutation (mass_err st') (mass_err st).
+    Lemma run_wf sigma : forall st st',
+      wf st -> RUN st sigma = Some st' -> wf st' /\ shards st' = shards st.
     Proof.
-      induction sigma as [|l sigma IH]; intros st st' Hgk Hge Hwf H; cbn in H.
+      induction sigma as [|l sigma IH]; intros st st' Hwf H; cbn in H.
       - injection H as <-. auto.
       - destruct (FIRE st l) as [st1|] eqn:E; [|discriminate].
         destruct (fire_wf _ _ _ Hwf E) as (Hwf1 & Hs1).
-        destruct (IH st1 st' Hgk Hge Hwf1 H) as (Hwf' & Hs' & Hm1 & Hm2).
-        repeat split; try assumption.
-        + congruence.
-        + etransitivity; [exact Hm1|]. eapply mass_ok_step; eauto.
-        + etransitivity; [exact Hm2|]. eapply mass_err_step; eauto.
+        destruct (IH st1 st' Hwf1 H) as (Hwf' & Hs'). split; [assumption|congruence].
+    Qed.
+
+    Lemma run_mass_ok sigma : forall st st',
+      (forall c sh, gk (okf c sh) = f c sh) ->
+      wf st -> RUN st sigma = Some st' -> Permutation (mass_ok st') (mass_ok st).
+    Proof.
+      induction sigma as [|l sigma IH]; intros st st' Hgk Hwf H; cbn in H.
+      - injection H as <-. reflexivity.
+      - destruct (FIRE st l) as [st1|] eqn:E; [|discriminate].
+        destruct (fire_wf _ _ _ Hwf E) as (Hwf1 & Hs1).
+        etransitivity; [exact (IH st1 st' Hgk Hwf1 H)|]. eapply mass_ok_step; eauto.
+    Qed.
+
+    Lemma run_mass_err sigma : forall st st',
+      (forall c sh, ge (errf c sh) = f c sh) ->
+      wf st -> RUN st sigma = Some st' -> Permutation (mass_err st') (mass_err st).
+    Proof.
+      induction sigma as [|l sigma IH]; intros st st' Hge Hwf H; cbn in H.
+      - injection H as <-. reflexivity.
+      - destruct (FIRE st l) as [st1|] eqn:E; [|discriminate].
+        destruct (fire_wf _ _ _ Hwf E) as (Hwf1 & Hs1).
+        etransitivity; [exact (IH st1 st' Hge Hwf1 H)|]. eapply mass_err_step; eauto.
     Qed.
   End Mass.
 
@@ -364,12 +379,12 @@ Section DistProofs.
     - now injection H as <-.
     - destruct (FIRE st l) as [st1|] eqn:E; [|discriminate].
       destruct (fire_wf _ _ _ Hwf E) as (Hwf1 & _).
-      rewrite (IH st1 st' Hwf1 H). apply balance_step; [apply Hwf|exact E].
+      rewrite (IH st1 st' Hwf1 H). apply (balance_step st l st1); [apply Hwf|exact E].
   Qed.
 
-  Definition unit_f : track -> list track -> list unit := fun _ _ => [tt].
-  Definition unit_k : list (res MV) -> list unit := fun _ => [tt].
-  Definition unit_e : list err -> list unit := fun _ => [tt].
+  Notation unit_f := (fun (_ : track) (_ : list track) => [tt]).
+  Notation unit_k := (fun _ : list (res MV) => [tt]).
+  Notation unit_e := (fun _ : list err => [tt]).
 
   Lemma length_flat_map_unit {A} (l : list A) : length (flat_map (fun _ => [tt]) l) = length l.
   Proof. induction l; cbn; auto. Qed.
@@ -406,10 +421,440 @@ Section DistProofs.
     RUN (foreign_init track MV sh cands) sigma = Some st -> reach_facts sh cands st.
   Proof.
     intros H. pose proof (foreign_init_wf sh cands) as Hwf0.
-    destruct (run_invariants (res MV) okf (fun x => x) (fun _ => []) sigma _ _ (fun _ _ => eq_refl)
-                (fun _ _ => eq_refl) Hwf0 H) as (Hwf & Hsh & Hok & _) || idtac.
-    all: try (clear Hok).
-    (* the err instance needs its own f *)
-    destruct (run_invariants (res MV) okf (fun x => x) (fun _ => []) sigma _ _ (fun _ _ => eq_refl)) as [_ _] || idtac.
-  Abort.
+    destruct (run_wf sigma _ _ Hwf0 H) as (Hwf & Hsh). cbn in Hsh.
+    pose proof (run_mass_ok (res MV) okf (fun x => x) sigma _ _ (fun _ _ => eq_refl) Hwf0 H) as Hok.
+    pose proof (run_mass_err err errf (fun x => x) sigma _ _ (fun _ _ => eq_refl) Hwf0 H) as Herr.
+    pose proof (run_mass_ok unit unit_f unit_k sigma _ _ (fun _ _ => eq_refl) Hwf0 H) as Hcok.
+    pose proof (run_mass_err unit unit_f unit_e sigma _ _ (fun _ _ => eq_refl) Hwf0 H) as Hcerr.
+    pose proof (balance_run sigma _ _ Hwf0 H) as Hbal.
+    apply Permutation_length in Hcok. apply Permutation_length in Hcerr.
+    unfold mass_ok, mass_err in Hcok, Hcerr.
+    rewrite !app_length, !length_flat_map_unit in Hcok. rewrite !app_length, !length_flat_map_unit in Hcerr.
+    unfold foreign_init in Hcok, Hcerr, Hok, Herr, Hbal; cbn [got_ok got_err ok_chan err_chan shards queues todo] in *.
+    rewrite pend_repeat_nil in Hcok. rewrite pend_repeat_nil in Hcerr. unfold work in Hcok, Hcerr.
+    rewrite !length_flat_map_unit, enq_list_length in Hcok. rewrite !length_flat_map_unit, enq_list_length in Hcerr. cbn [length] in Hcok, Hcerr.
+    unfold mass_ok in Hok. unfold mass_err in Herr.
+    cbn [got_ok got_err ok_chan err_chan shards queues todo flat_map] in Hok, Herr.
+    rewrite pend_repeat_nil in Hok. rewrite pend_repeat_nil in Herr. cbn [app] in Hok, Herr.
+    rewrite okf_all_shards in Hok. rewrite errf_all_shards in Herr.
+    unfold balance in Hbal. cbn in Hbal. injection Hbal as Hb1 Hb2.
+    constructor; try assumption; lia.
+  Qed.
+
+  Lemma final_empty sh cands st :
+    reach_facts sh cands st -> FINAL st = true ->
+    todo st = [] /\ ok_chan st = [] /\ err_chan st = [] /\
+    length (pend unit_f (shards st) (queues st)) = 0 /\
+    length (got_ok st) = length sh * length cands /\ length (got_err st) = length sh * length cands.
+  Proof.
+    intros R F. unfold dfinal in F.
+    destruct (pre st); [discriminate|]. destruct (todo st) eqn:Et; [|discriminate].
+    destruct (need_ok st) eqn:E1; [|discriminate]. destruct (need_err st) eqn:E2; [|discriminate].
+    pose proof (rf_cnt_ok _ _ _ R) as C1. pose proof (rf_cnt_err _ _ _ R) as C2.
+    pose proof (rf_bal_ok _ _ _ R) as B1. pose proof (rf_bal_err _ _ _ R) as B2.
+    rewrite Et in C1, C2. cbn [length] in C1, C2. rewrite E1 in B1. rewrite E2 in B2.
+    repeat split; try lia.
+    - destruct (ok_chan st); [reflexivity|cbn in C1; lia].
+    - destruct (err_chan st); [reflexivity|cbn in C2; lia].
+  Qed.
+
+  (* ---- the theorems ---------------------------------------------------------------------------------- *)
+
+  Lemma foreign_query_exact_lemma sh cands sigma st :
+    RUN (foreign_init track MV sh cands) sigma = Some st -> FINAL st = true ->
+    Permutation (concat (got_ok st)) (OKSPEC (concat sh) cands cls ob) /\
+    Permutation (concat (got_err st)) (ERRSPEC (concat sh) cands cls ob) /\
+    shards st = sh.
+  Proof.
+    intros H F. pose proof (reach _ _ _ _ H) as R.
+    destruct (final_empty _ _ _ R F) as (Et & Eo & Ee & Ep & _ & _).
+    pose proof (rf_ok _ _ _ R) as Hok. pose proof (rf_err _ _ _ R) as Herr.
+    unfold mass_ok in Hok. unfold mass_err in Herr. rewrite Et, Eo in Hok. rewrite Et, Ee in Herr.
+    rewrite (pend_unit_zero okf _ _ Ep) in Hok. rewrite (pend_unit_zero errf _ _ Ep) in Herr.
+    cbn [flat_map work app] in Hok, Herr. rewrite !app_nil_r in Hok, Herr.
+    rewrite flat_map_id_concat in Hok. rewrite flat_map_id_concat in Herr.
+    repeat split; try assumption. apply (rf_shards _ _ _ R).
+  Qed.
+
+  Lemma chunk_count_lemma sh cands sigma st :
+    RUN (foreign_init track MV sh cands) sigma = Some st -> FINAL st = true ->
+    length (got_ok st) = length sh * length cands /\ length (got_err st) = length sh * length cands /\
+    ok_chan st = [] /\ err_chan st = [] /\ Forall (fun q => q = []) (queues st).
+  Proof.
+    intros H F. pose proof (reach _ _ _ _ H) as R.
+    destruct (final_empty _ _ _ R F) as (Et & Eo & Ee & Ep & L1 & L2).
+    repeat split; try assumption.
+    destruct (rf_wf _ _ _ R) as (Hlen & _ & _).
+    revert Hlen Ep. generalize (queues st), (shards st). intros qs ss. revert ss.
+    induction qs as [|q qs IH]; intros ss Hlen Ep; [constructor|].
+    destruct ss as [|s ss]; [discriminate|]. unfold pend in Ep. cbn [combine flat_map fst snd] in Ep.
+    rewrite app_length in Ep. constructor.
+    - destruct q; [reflexivity|cbn in Ep; lia].
+    - apply (IH ss); [now injection Hlen|]. unfold pend. lia.
+  Qed.
+
+  (* never reads more chunks than were produced: in every reachable state *)
+  Lemma never_over_read_lemma sh cands sigma st :
+    RUN (foreign_init track MV sh cands) sigma = Some st ->
+    need_ok st = length (ok_chan st) + length (pend unit_f (shards st) (queues st)) + length (todo st) /\
+    need_err st = length (err_chan st) + length (pend unit_f (shards st) (queues st)) + length (todo st).
+  Proof.
+    intros H. pose proof (reach _ _ _ _ H) as R.
+    pose proof (rf_cnt_ok _ _ _ R). pose proof (rf_cnt_err _ _ _ R).
+    pose proof (rf_bal_ok _ _ _ R). pose proof (rf_bal_err _ _ _ R). lia.
+  Qed.
+
+  Lemma query_no_deadlock_lemma sh cands sigma st :
+    RUN (foreign_init track MV sh cands) sigma = Some st -> FINAL st = false ->
+    exists l st', FIRE st l = Some st'.
+  Proof.
+    intros H F. pose proof (reach _ _ _ _ H) as R.
+    destruct (never_over_read_lemma _ _ _ _ H) as (N1 & N2).
+    destruct (rf_wf _ _ _ R) as (Hlen & Hpre & Htodo).
+    unfold dfinal in F. rewrite Hpre in F.
+    destruct (todo st) as [|[k c] rest] eqn:Et.
+    - cbn [length] in N1, N2.
+      assert (Hq : 0 < length (pend unit_f (shards st) (queues st)) ->
+                   exists l st', FIRE st l = Some st').
+      { intro Hp. destruct (pend_unit_pos _ _ Hlen Hp) as (k & c & q & Hk).
+        exists (DExec k). cbn. rewrite Hk. eauto. }
+      destruct (need_ok st) eqn:E1.
+      + destruct (need_err st) eqn:E2; [discriminate|].
+        destruct (err_chan st) eqn:Ec.
+        * apply Hq. cbn in N2. lia.
+        * exists DRecvErr. cbn. rewrite E2, Ec. eauto.
+      + destruct (ok_chan st) eqn:Ec.
+        * apply Hq. cbn in N1. lia.
+        * exists DRecvOk. cbn. rewrite E1, Ec. eauto.
+    - inversion Htodo as [|x l Hk _]; subst. cbn in Hk. rewrite <- Hlen in Hk.
+      destruct (nth_error (queues st) k) as [q|] eqn:Eq.
+      + exists (DEnq k). cbn. rewrite Hpre, Et, Nat.eqb_refl, Eq. eauto.
+      + apply nth_error_None in Eq. lia.
+  Qed.
+
+  (* every step strictly decreases this measure: every run terminates *)
+  Definition dmeasure (st : state) : nat :=
+    (match pre st with Some _ => 1 | None => 0 end) +
+    4 * length (todo st) + 3 * length (concat (queues st)) + length (ok_chan st) + length (err_chan st)
+    + need_ok st + need_err st.
+
+  Lemma concat_set_nth_length {A} (qs : list (list A)) : forall k q q',
+    nth_error qs k = Some q ->
+    length (concat (set_nth k q' qs)) + length q = length (concat qs) + length q'.
+  Proof.
+    induction qs as [|q0 qs IH]; intros k q q' H; [destruct k; discriminate|].
+    destruct k; cbn in *.
+    - injection H as ->. rewrite !app_length. lia.
+    - rewrite !app_length. specialize (IH k q q' H). lia.
+  Qed.
+
+  Lemma measure_decreases_lemma st l st' :
+    pre st = None -> FIRE st l = Some st' -> dmeasure st' < dmeasure st.
+  Proof.
+    intros Hpre H. destruct l as [| k | k | |]; cbn in H.
+    - rewrite Hpre in H. discriminate.
+    - rewrite Hpre in H. destruct (todo st) as [|[k' c] rest] eqn:Et; [discriminate|].
+      destruct (Nat.eqb k k'); [|discriminate].
+      destruct (nth_error (queues st) k) as [q|] eqn:Eq; [|discriminate]. injection H as <-.
+      unfold dmeasure; cbn [pre todo queues ok_chan err_chan need_ok need_err]. rewrite Hpre, Et.
+      pose proof (concat_set_nth_length (queues st) k q (q ++ [c]) Eq) as L. rewrite app_length in L.
+      cbn [length] in *. lia.
+    - destruct (nth_error (queues st) k) as [[|c q]|] eqn:Eq; try discriminate. injection H as <-.
+      unfold dmeasure; cbn [pre todo queues ok_chan err_chan need_ok need_err].
+      pose proof (concat_set_nth_length (queues st) k (c :: q) q Eq) as L.
+      rewrite !app_length. cbn [length] in *. lia.
+    - destruct (need_ok st) eqn:E1; [discriminate|]. destruct (ok_chan st) eqn:Ec; [discriminate|].
+      injection H as <-. unfold dmeasure; cbn [pre todo queues ok_chan err_chan need_ok need_err].
+      rewrite E1, Ec. cbn [length]. lia.
+    - destruct (need_err st) eqn:E1; [discriminate|]. destruct (err_chan st) eqn:Ec; [discriminate|].
+      injection H as <-. unfold dmeasure; cbn [pre todo queues ok_chan err_chan need_ok need_err].
+      rewrite E1, Ec. cbn [length]. lia.
+  Qed.
+
+  (* ---- owned query ------------------------------------------------------------------------------------ *)
+  Lemma owned_run_shape sh ids sigma st :
+    RUN (owned_init track MV sh ids) sigma = Some st ->
+    (sigma = [] /\ st = owned_init track MV sh ids) \/
+    exists sigma', sigma = DCopy :: sigma' /\
+                   RUN (foreign_init track MV sh (owned_cands track tid sh ids)) sigma' = Some st.
+  Proof.
+    destruct sigma as [|l sigma]; intros H; cbn in H.
+    - left. split; [reflexivity|]. now injection H.
+    - right. destruct l as [| k | k | |]; cbn in H.
+      + exists sigma. split; [reflexivity|]. exact H.
+      + discriminate.
+      + assert (E : nth_error (repeat (@nil track) (length sh)) k = None \/
+                    nth_error (repeat (@nil track) (length sh)) k = Some []).
+        { destruct (nth_error (repeat [] (length sh)) k) eqn:E; [|auto]. right.
+          apply nth_error_In, repeat_spec in E. now subst. }
+        destruct E as [E|E]; rewrite E in H; discriminate.
+      + discriminate.
+      + discriminate.
+  Qed.
+
+  Lemma owned_query_exact_lemma sh ids sigma st :
+    RUN (owned_init track MV sh ids) sigma = Some st -> FINAL st = true ->
+    Permutation (concat (got_ok st)) (OKSPEC (concat sh) (owned_cands track tid sh ids) cls ob) /\
+    Permutation (concat (got_err st)) (ERRSPEC (concat sh) (owned_cands track tid sh ids) cls ob) /\
+    shards st = sh.
+  Proof.
+    intros H F. destruct (owned_run_shape _ _ _ _ H) as [(-> & ->)|(sigma' & -> & H')].
+    - discriminate.
+    - eapply foreign_query_exact_lemma; eauto.
+  Qed.
+
+  Lemma owned_no_deadlock_lemma sh ids sigma st :
+    RUN (owned_init track MV sh ids) sigma = Some st -> FINAL st = false ->
+    exists l st', FIRE st l = Some st'.
+  Proof.
+    intros H F. destruct (owned_run_shape _ _ _ _ H) as [(-> & ->)|(sigma' & -> & H')].
+    - exists DCopy. cbn. eauto.
+    - eapply query_no_deadlock_lemma; eauto.
+  Qed.
+
+  (* the queried tracks are the stored tracks themselves *)
+  Lemma find_track_in sh id t : find_track track tid sh id = Some t -> In t (concat sh) /\ tid t = id.
+  Proof.
+    unfold find_track. intro H. apply find_some in H. destruct H as (Hin & Heq).
+    apply N.eqb_eq in Heq. split; [|exact Heq].
+    set (k := N.to_nat (id mod N.of_nat (length sh))) in *.
+    destruct (Nat.lt_ge_cases k (length sh)) as [Hk|Hk].
+    - apply in_concat. exists (nth k sh []). split; [apply nth_In; exact Hk|exact Hin].
+    - rewrite nth_overflow in Hin by exact Hk. destruct Hin.
+  Qed.
+
+  Lemma owned_cands_in sh ids c : In c (owned_cands track tid sh ids) -> In c (concat sh) /\ In (tid c) ids.
+  Proof.
+    unfold owned_cands. intro H. apply in_flat_map in H. destruct H as (id & Hid & Hc).
+    destruct (find_track track tid sh id) as [t|] eqn:E; cbn in Hc; [|destruct Hc].
+    destruct Hc as [<-|[]]. destruct (find_track_in _ _ _ E) as (Hin & <-). auto.
+  Qed.
+
+  (* a store is well sharded when every track lives in shard id mod n and ids are unique *)
+  Definition well_sharded (sh : list (list track)) : Prop :=
+    (forall k t, In t (nth k sh []) -> N.to_nat (N.modulo (tid t) (N.of_nat (length sh))) = k) /\
+    NoDup (map tid (concat sh)).
+
+  Lemma find_unique (l : list track) t :
+    NoDup (map tid l) -> In t l -> find (fun x => N.eqb (tid x) (tid t)) l = Some t.
+  Proof.
+    induction l as [|a l IH]; intros Hnd Hin; [destruct Hin|].
+    cbn in Hnd. inversion Hnd as [|x y Hni Hnd']; subst. cbn.
+    destruct Hin as [->|Hin].
+    - now rewrite N.eqb_refl.
+    - destruct (N.eqb (tid a) (tid t)) eqn:E.
+      + apply N.eqb_eq in E. exfalso. apply Hni. rewrite E. now apply in_map.
+      + now apply IH.
+  Qed.
+
+  Lemma NoDup_app_parts {A} (l l' : list A) : NoDup (l ++ l') -> NoDup l /\ NoDup l'.
+  Proof.
+    induction l as [|a l IH]; cbn; intro H; [split; [constructor|exact H]|].
+    inversion H as [|x y Hni Hnd]; subst. destruct (IH Hnd) as (H1 & H2). split; [|exact H2].
+    constructor; [|exact H1]. intro Hin. apply Hni, in_or_app. now left.
+  Qed.
+
+  Lemma NoDup_map_concat_nth (sh : list (list track)) k :
+    NoDup (map tid (concat sh)) -> NoDup (map tid (nth k sh [])).
+  Proof.
+    revert k. induction sh as [|s sh IH]; intros k H.
+    - destruct k; constructor.
+    - cbn in H. rewrite map_app in H. destruct k; cbn.
+      + apply (NoDup_app_parts _ _ H).
+      + apply IH. apply (NoDup_app_parts _ _ H).
+  Qed.
+
+  Lemma owned_cands_complete sh ids t :
+    well_sharded sh -> In t (concat sh) -> In (tid t) ids -> In t (owned_cands track tid sh ids).
+  Proof.
+    intros (Hws & Hnd) Hin Hid. unfold owned_cands. apply in_flat_map. exists (tid t). split; [exact Hid|].
+    apply in_concat in Hin. destruct Hin as (s & Hs & Ht).
+    apply In_nth with (d := []) in Hs. destruct Hs as (k & Hk & <-).
+    unfold find_track. rewrite (Hws k t Ht).
+    rewrite (find_unique _ t (NoDup_map_concat_nth sh k Hnd) Ht). cbn. auto.
+  Qed.
+
+  Lemma in_ok_spec all cands c o r :
+    In c cands -> In o all -> ELIG c ob o = true -> In r (PAIROK c cls o) -> In r (OKSPEC all cands cls ob).
+  Proof.
+    intros Hc Ho He Hr. unfold ok_spec. apply in_flat_map. exists c. split; [exact Hc|].
+    apply in_flat_map. exists o. split; [exact Ho|]. now rewrite He.
+  Qed.
+
+  Lemma owned_query_mutual_lemma sh ids sigma st c1 c2 r :
+    RUN (owned_init track MV sh ids) sigma = Some st -> FINAL st = true ->
+    In c1 (owned_cands track tid sh ids) -> In c2 (owned_cands track tid sh ids) ->
+    ELIG c1 ob c2 = true -> In r (PAIROK c1 cls c2) -> In r (concat (got_ok st)).
+  Proof.
+    intros H F H1 H2 He Hr. destruct (owned_query_exact_lemma _ _ _ _ H F) as (Hok & _ & _).
+    eapply Permutation_in; [symmetry; exact Hok|].
+    eapply (in_ok_spec _ _ c1 c2); eauto. apply (owned_cands_in _ _ _ H2).
+  Qed.
+
+  (* ---- reading aids for the specification ----------------------------------------------------------- *)
+  Lemma spec_no_self_pairs_lemma all cands r :
+    (forall c l x, In x (postprocess c l) -> In x l) ->
+    In r (OKSPEC all cands cls ob) -> fst (fst r) <> snd (fst r).
+  Proof.
+    intros Hpp H. unfold ok_spec in H. apply in_flat_map in H. destruct H as (c & _ & H).
+    apply in_flat_map in H. destruct H as (o & _ & H).
+    destruct (ELIG c ob o) eqn:E; [|destruct H].
+    unfold pair_ok in H. destruct (observations c cls); [|destruct H].
+    destruct (observations o cls); [|destruct H].
+    apply Hpp in H. apply in_flat_map in H. destruct H as (lr & _ & H).
+    unfold pair_metric in H. destruct (metric cls c (fst lr) o (snd lr)); [|destruct H].
+    destruct H as [<-|[]]. cbn.
+    unfold eligible in E. apply andb_prop in E. destruct E as (E & _). apply andb_prop in E. destruct E as (E & _).
+    apply negb_true_iff, N.eqb_neq in E. exact E.
+  Qed.
+
+  Lemma spec_one_per_observation_pair_lemma c o l r :
+    (forall c l, postprocess c l = l) ->
+    observations c cls = Some l -> observations o cls = Some r ->
+    PAIROK c cls o =
+    flat_map (fun a => flat_map (fun b => match metric cls c a o b with
+                                          | Some v => [(tid c, tid o, v)] | None => [] end) r) l.
+  Proof.
+    intros Hpp Hl Hr. unfold pair_ok. rewrite Hl, Hr, Hpp.
+    clear Hl. induction l as [|a l IH]; cbn; [reflexivity|].
+    rewrite flat_map_app, IH. f_equal.
+    rewrite flat_map_concat_map, map_map, <- flat_map_concat_map. reflexivity.
+  Qed.
+
+  Lemma spec_perm_store all all' cands :
+    Permutation all all' ->
+    Permutation (OKSPEC all cands cls ob) (OKSPEC all' cands cls ob) /\
+    Permutation (ERRSPEC all cands cls ob) (ERRSPEC all' cands cls ob).
+  Proof.
+    intro P. unfold ok_spec, err_spec. split.
+    - induction cands as [|c cands IH]; cbn; [constructor|].
+      apply Permutation_app; [|exact IH]. now apply Permutation_flat_map_l.
+    - induction cands as [|c cands IH]; cbn; [constructor|].
+      apply Permutation_app; [|exact IH]. now apply Permutation_flat_map_l.
+  Qed.
+
+  Lemma query_schedule_independent_lemma sh cands s1 s2 st1 st2 :
+    RUN (foreign_init track MV sh cands) s1 = Some st1 -> FINAL st1 = true ->
+    RUN (foreign_init track MV sh cands) s2 = Some st2 -> FINAL st2 = true ->
+    Permutation (concat (got_ok st1)) (concat (got_ok st2)) /\
+    Permutation (concat (got_err st1)) (concat (got_err st2)).
+  Proof.
+    intros H1 F1 H2 F2.
+    destruct (foreign_query_exact_lemma _ _ _ _ H1 F1) as (A1 & B1 & _).
+    destruct (foreign_query_exact_lemma _ _ _ _ H2 F2) as (A2 & B2 & _).
+    split; [rewrite A1, A2|rewrite B1, B2]; reflexivity.
+  Qed.
+
+  Lemma query_shard_independent_lemma sh1 sh2 cands s1 s2 st1 st2 :
+    Permutation (concat sh1) (concat sh2) ->
+    RUN (foreign_init track MV sh1 cands) s1 = Some st1 -> FINAL st1 = true ->
+    RUN (foreign_init track MV sh2 cands) s2 = Some st2 -> FINAL st2 = true ->
+    Permutation (concat (got_ok st1)) (concat (got_ok st2)) /\
+    Permutation (concat (got_err st1)) (concat (got_err st2)).
+  Proof.
+    intros P H1 F1 H2 F2.
+    destruct (foreign_query_exact_lemma _ _ _ _ H1 F1) as (A1 & B1 & _).
+    destruct (foreign_query_exact_lemma _ _ _ _ H2 F2) as (A2 & B2 & _).
+    destruct (spec_perm_store _ _ cands P) as (PA & PB).
+    split; [rewrite A1, A2|rewrite B1, B2]; assumption.
+  Qed.
+
+  (* ---- the store's own sharding ------------------------------------------------------------------------ *)
+  Lemma concat_map_nil {A B} (ks : list A) : concat (map (fun _ => @nil B) ks) = [].
+  Proof. induction ks; cbn; auto. Qed.
+
+  Lemma concat_insert_one {A} (F : nat -> list A) (t : A) (k0 : nat) (ks : list nat) :
+    NoDup ks -> In k0 ks ->
+    Permutation (concat (map (fun k => if Nat.eqb k0 k then t :: F k else F k) ks)) (t :: concat (map F ks)).
+  Proof.
+    induction ks as [|k ks IH]; intros Hnd Hin; [destruct Hin|].
+    inversion Hnd as [|x y Hni Hnd']; subst. cbn [map concat].
+    destruct (Nat.eqb k0 k) eqn:E.
+    - apply Nat.eqb_eq in E. subst k. cbn. constructor.
+      assert (Hm : map (fun k => if Nat.eqb k0 k then t :: F k else F k) ks = map F ks).
+      { apply map_ext_in. intros k Hk. destruct (Nat.eqb k0 k) eqn:E; [|reflexivity].
+        apply Nat.eqb_eq in E. subst. contradiction. }
+      rewrite Hm. reflexivity.
+    - destruct Hin as [->|Hin]; [rewrite Nat.eqb_refl in E; discriminate|].
+      rewrite (IH Hnd' Hin). apply Permutation_sym, Permutation_middle.
+  Qed.
+
+  Lemma concat_distribute n (all : list track) :
+    0 < n -> Permutation (concat (distribute track tid n all)) all.
+  Proof.
+    intro Hn. unfold distribute. induction all as [|t all IH].
+    - cbn. rewrite concat_map_nil. constructor.
+    - set (k0 := N.to_nat (tid t mod N.of_nat n)).
+      assert (Hk0 : In k0 (seq 0 n)).
+      { apply in_seq. split; [lia|]. cbn. unfold k0.
+        assert (tid t mod N.of_nat n < N.of_nat n)%N by (apply N.mod_lt; lia). lia. }
+      transitivity (t :: concat (map (fun k => filter (fun x => Nat.eqb (N.to_nat (tid x mod N.of_nat n)) k) all) (seq 0 n))).
+      + rewrite <- (concat_insert_one (fun k => filter (fun x => Nat.eqb (N.to_nat (tid x mod N.of_nat n)) k) all) t k0 (seq 0 n) (seq_NoDup n 0) Hk0).
+        apply Permutation_refl'. apply f_equal. apply map_ext. intro k. cbn [filter]. reflexivity.
+      + constructor. exact IH.
+  Qed.
+
+  Lemma distribute_length n (all : list track) : length (distribute track tid n all) = n.
+  Proof. unfold distribute. now rewrite map_length, seq_length. Qed.
+
+  Lemma nth_map_seq {A} (F : nat -> A) n k d : k < n -> nth k (map F (seq 0 n)) d = F k.
+  Proof.
+    intros Hk. rewrite nth_indep with (d' := F 0) by (rewrite map_length, seq_length; lia).
+    rewrite map_nth, seq_nth by lia. reflexivity.
+  Qed.
+
+  Lemma distribute_well_sharded n (all : list track) :
+    NoDup (map tid all) -> 0 < n -> well_sharded (distribute track tid n all).
+  Proof.
+    intros Hnd Hn. split.
+    - intros k t Hin. rewrite distribute_length. unfold distribute in Hin.
+      destruct (Nat.lt_ge_cases k n) as [Hk|Hk].
+      + rewrite nth_map_seq in Hin by exact Hk.
+        apply filter_In in Hin. destruct Hin as (_ & E). now apply Nat.eqb_eq in E.
+      + rewrite nth_overflow in Hin by (now rewrite map_length, seq_length). destruct Hin.
+    - eapply Permutation_NoDup; [|exact Hnd]. apply Permutation_map, Permutation_sym, concat_distribute. exact Hn.
+  Qed.
 End DistProofs.
+
+(* ---------------------------------------------------------------------------------------------------- *)
+(* The legacy shape of owned_track_distances violates the property: witness on the scripted algebra.      *)
+Module LegacyWitness.
+  Import DistInst Legacy.
+
+  Definition w_t1 := mkT 1 0 1 [(0%N, [1%N])].
+  Definition w_t2 := mkT 2 0 1 [(0%N, [2%N])].
+  Definition w_store : list (list trk) := [[w_t1; w_t2]].
+  (* both workers' commands run between the fetch and the re-add *)
+  Definition w_bad : list llabel :=
+    [LFetch; LStep (DEnq 0); LStep (DEnq 0); LStep (DExec 0); LStep (DExec 0); LReAdd;
+     LStep DRecvOk; LStep DRecvOk; LStep DRecvErr; LStep DRecvErr].
+  (* the re-add happens before the workers run *)
+  Definition w_good : list llabel :=
+    [LFetch; LStep (DEnq 0); LStep (DEnq 0); LReAdd; LStep (DExec 0); LStep (DExec 0);
+     LStep DRecvOk; LStep DRecvOk; LStep DRecvErr; LStep DRecvErr].
+
+  Lemma owned_query_refuted_lemma :
+    exists sh ids cls ob sigma s,
+      lrun cls ob (legacy_init sh ids) sigma = Some s /\ lfinal s = true /\
+      ~ Permutation (concat (got_ok (base s))) (okspec (concat sh) (owned_cands trk t_id sh ids) cls ob).
+  Proof.
+    exists w_store, [1%N; 2%N], 0%N, false, w_bad.
+    eexists. split; [vm_compute; reflexivity|]. split; [vm_compute; reflexivity|].
+    intro P. apply Permutation_length in P. vm_compute in P. discriminate.
+  Qed.
+
+  Lemma legacy_schedule_dependent_lemma :
+    exists sh ids cls ob s1 s2 r1 r2,
+      lrun cls ob (legacy_init sh ids) s1 = Some r1 /\ lfinal r1 = true /\
+      lrun cls ob (legacy_init sh ids) s2 = Some r2 /\ lfinal r2 = true /\
+      length (concat (got_ok (base r1))) <> length (concat (got_ok (base r2))).
+  Proof.
+    exists w_store, [1%N; 2%N], 0%N, false, w_bad, w_good.
+    do 2 eexists.
+    split; [vm_compute; reflexivity|].
+    split; [vm_compute; reflexivity|].
+    split; [vm_compute; reflexivity|].
+    split; [vm_compute; reflexivity|].
+    vm_compute. discriminate.
+  Qed.
+End LegacyWitness.
